@@ -36,9 +36,10 @@ PROPS = {
         "assumptions": ["conditions shorter than 2^31 tokens (i32 parenthesis depth counter)"],
     },
     "C05": {
-        "units": {"front": ["binding_power", "match_ahead", "consume_while", "tokenise"] + FRONT_PARSE + ["lemma_or_binds_tighter_than_and", "lemma_left_associative", "lemma_not_single_operand", "lemma_parentheses"]},
-        "explanation": "the real parse/parse_expr/parse_led/parse_nud are proved to return, on every condition they accept, exactly p_parse(tokens): a grammar function that consults operators only through the binding powers (binding_power is proved equal to that table); the property's clauses are lemmas over p_parse for symbolic identifiers: or binds tighter than and on either side, equal operators associate to the left, not takes the single following operand (and not not a is a double negation), parentheses override and a parenthesised atom is the atom; the keyword look-ahead helper is proved to test exactly a prefix of the remaining text",
-        "assumptions": ["redundant parentheses around arbitrary sub-expressions: proved for the stated instances, not by general induction", "the tokeniser's full lexing function (keyword vs identifier for every text) is not under a functional contract; termination/panic-freedom and the look-ahead helper are"],
+        "units": {"front": ["binding_power", "match_ahead", "consume_while", "tokenise"] + FRONT_PARSE + ["lemma_or_binds_tighter_than_and", "lemma_left_associative", "lemma_not_single_operand", "lemma_parentheses", "lemma_lex_unfold", "lemma_lex_step", "lemma_run", "lemma_word_is_identifier", "lemma_leading_space", "lemma_keywordish_words", "lemma_keywords"]},
+        "explanation": "the real parse/parse_expr/parse_led/parse_nud are proved to return, on every condition they accept, exactly p_parse(tokens): a grammar function that consults operators only through the binding powers (binding_power is proved equal to that table); the property's clauses are lemmas over p_parse for symbolic identifiers: or binds tighter than and on either side, equal operators associate to the left, not takes the single following operand (and not not a is a double negation), parentheses override and a parenthesised atom is the atom; the keyword look-ahead helper is proved to test exactly a prefix of the remaining text; the tokeniser is proved EQUAL to the lexing function lex for every string (Ok(tokens) exactly when lex gives those tokens, Err exactly when lex is undefined): a keyword is taken only at the start of a token and only with the character that must follow it ('and ', 'or ', 'not ', 'not(', 'all(', 'of(', 'int(', 'flt(', 'str(', 'string('), anything else starting with a letter or '#' is the longest run of identifier characters - so android / order / nothing / allow / offline lex to identifiers (lemma_keywordish_words, and lemma_word_is_identifier for every such word), while 'a and b' lexes to identifier, operator, identifier",
+        "assumptions": ["redundant parentheses around arbitrary sub-expressions: proved for the stated instances, not by general induction", "extra white space BETWEEN tokens: leading white space is proved irrelevant at every position where a token may start (lemma_leading_space); a general statement about inserting spaces needs a notion of token boundary that is not formalised",
+                        "numeric literals: str::parse::<i64/f64> is uninterpreted; ASCII non-letters/digits are assumed not alphanumeric (char::is_alphanumeric)"],
     },
     "C02": {
         "units": {"solver": SOLVER_CORE + ["search", "as_bool", "is_null", "as_str", "as_object", "to_string"], "batch": BATCH_FNS},
